@@ -182,15 +182,16 @@ type pkRec struct {
 }
 
 type nodeRig struct {
-	res      *suiteResult
-	selfTok  int
-	self     peer.ID
-	ds       *recDS
-	tids     *tidTable
-	mgr      datatransfer.Manager
-	ch       *channels.Channels
-	handler  datatransfer.EventsHandler
-	receiver network.Receiver
+	defaultVal *valSpec // the validators' answer when nothing is scripted (nil: not accepted)
+	res        *suiteResult
+	selfTok    int
+	self       peer.ID
+	ds         *recDS
+	tids       *tidTable
+	mgr        datatransfer.Manager
+	ch         *channels.Channels
+	handler    datatransfer.EventsHandler
+	receiver   network.Receiver
 
 	mu                 sync.Mutex
 	sendf              []bool
@@ -453,6 +454,8 @@ func (v *valDouble) next(kind int, chid datatransfer.ChannelID) (datatransfer.Va
 	var s valSpec
 	if len(r.vals) > 0 {
 		s, r.vals = r.vals[0], r.vals[1:]
+	} else if r.defaultVal != nil {
+		s = *r.defaultVal
 	}
 	r.valcalls = append(r.valcalls, valRec{kind, r.chidTokOf(chid), s, v.typ})
 	return s.real()
@@ -1106,7 +1109,8 @@ type chanSnap struct {
 	Pull     bool
 	SelfInit bool
 	Other    int
-	OpenType string // type identifier of the opening voucher
+	OpenType string   // type identifier of the opening voucher
+	Counts   [6]int64 // queued, sent, received bytes; queued, sent, received block counts
 }
 
 func (r *nodeRig) snapOf(st datatransfer.ChannelState) chanSnap {
@@ -1116,6 +1120,7 @@ func (r *nodeRig) snapOf(st datatransfer.ChannelState) chanSnap {
 	c.Ident = fmt.Sprint(r.chidTokOf(st.ChannelID()), tokOfPeer(st.SelfPeer()), tokOfPeer(st.OtherPeer()), tokOfPeer(st.Sender()), tokOfPeer(st.Recipient()),
 		st.IsPull(), tokOfCid(st.BaseCID()), tokOfNode(st.Selector()), coqTyped(st.Voucher()), st.TotalSize())
 	c.Progress = fmt.Sprint(st.Queued(), st.Sent(), st.Received(), st.QueuedCidsTotal(), st.SentCidsTotal(), st.ReceivedCidsTotal())
+	c.Counts = [6]int64{int64(st.Queued()), int64(st.Sent()), int64(st.Received()), st.QueuedCidsTotal(), st.SentCidsTotal(), st.ReceivedCidsTotal()}
 	for _, v := range st.Vouchers() {
 		c.Vouchers = append(c.Vouchers, coqTyped(v))
 	}
